@@ -26,6 +26,11 @@ def run(tier):
         chk.clause('C11.mach', 'R8 machine constants by constant propagation')
         chk.clause('C11.laqgs', 'R8 letter <-> factors <-> threshold rule')
         chk.clause('C11.gsequ', 'R8 clamp, info convention, magnitude')
+        from ..rules import misc as _misc
+        chk.clause('C11.cabs', 'complex entries are measured by a magnitude that takes both the real and the imaginary part')
+        _misc.complex_magnitude_rule(chk, 'C11.cabs', prog, cfgname)
+        from ..rules import r11_kinds as _r11
+        _r11.run(chk, 'C11.kinds', prog, cfgname, funcs={q + u for q in 'sdcz' for u in ('gsequ', 'laqgs')}, floor=120)
         n = 0
         for mp in 'ds':
             k = r8_equil.mach_oracle(chk, 'C11.mach', prog, eff, mp, cfgname)
